@@ -1,1 +1,187 @@
-//! Independent metadata block model: typed blocks with own serialiser/parser.
+//! Independent builders for metadata block bodies (RFC 9639 section 8) and a
+//! serialiser for whole metadata sections.  Used to measure sizes, to build
+//! base files with arbitrary block layouts and to craft extreme / malformed
+//! sections.  No code shared with flac-codec.
+
+use crate::rng::Rng;
+
+#[derive(Debug, Clone, PartialEq, Eq)]
+pub struct RawBlock {
+    pub btype: u8,
+    pub body: Vec<u8>,
+}
+
+/// "fLaC" + blocks with correct headers (last flag on the final block).
+pub fn serialize_section(blocks: &[RawBlock]) -> Vec<u8> {
+    let mut out = b"fLaC".to_vec();
+    let n = blocks.len();
+    for (i, b) in blocks.iter().enumerate() {
+        out.push((b.btype & 0x7f) | if i + 1 == n { 0x80 } else { 0 });
+        out.extend_from_slice(&(b.body.len() as u32).to_be_bytes()[1..]);
+        out.extend_from_slice(&b.body);
+    }
+    out
+}
+
+/// Section with explicit control over header fields (for malformed input).
+pub fn serialize_section_raw(blocks: &[(u8, bool, u32, Vec<u8>)]) -> Vec<u8> {
+    let mut out = b"fLaC".to_vec();
+    for (t, last, declared_len, body) in blocks {
+        out.push((t & 0x7f) | if *last { 0x80 } else { 0 });
+        out.extend_from_slice(&declared_len.to_be_bytes()[1..]);
+        out.extend_from_slice(body);
+    }
+    out
+}
+
+pub fn padding(n: usize) -> RawBlock {
+    RawBlock { btype: 1, body: vec![0; n] }
+}
+
+pub fn application(id: [u8; 4], data: &[u8]) -> RawBlock {
+    let mut body = id.to_vec();
+    body.extend_from_slice(data);
+    RawBlock { btype: 2, body }
+}
+
+pub fn vorbis_comment(vendor: &[u8], fields: &[Vec<u8>]) -> RawBlock {
+    let mut body = (vendor.len() as u32).to_le_bytes().to_vec();
+    body.extend_from_slice(vendor);
+    body.extend_from_slice(&(fields.len() as u32).to_le_bytes());
+    for f in fields {
+        body.extend_from_slice(&(f.len() as u32).to_le_bytes());
+        body.extend_from_slice(f);
+    }
+    RawBlock { btype: 4, body }
+}
+
+#[allow(clippy::too_many_arguments)]
+pub fn picture(ptype: u32, mime: &[u8], desc: &[u8], w: u32, h: u32, depth: u32, colors: u32, data: &[u8]) -> RawBlock {
+    let mut body = ptype.to_be_bytes().to_vec();
+    body.extend_from_slice(&(mime.len() as u32).to_be_bytes());
+    body.extend_from_slice(mime);
+    body.extend_from_slice(&(desc.len() as u32).to_be_bytes());
+    body.extend_from_slice(desc);
+    body.extend_from_slice(&w.to_be_bytes());
+    body.extend_from_slice(&h.to_be_bytes());
+    body.extend_from_slice(&depth.to_be_bytes());
+    body.extend_from_slice(&colors.to_be_bytes());
+    body.extend_from_slice(&(data.len() as u32).to_be_bytes());
+    body.extend_from_slice(data);
+    RawBlock { btype: 6, body }
+}
+
+pub fn seektable(points: &[(u64, u64, u16)]) -> RawBlock {
+    let mut body = Vec::with_capacity(points.len() * 18);
+    for (s, o, n) in points {
+        body.extend_from_slice(&s.to_be_bytes());
+        body.extend_from_slice(&o.to_be_bytes());
+        body.extend_from_slice(&n.to_be_bytes());
+    }
+    RawBlock { btype: 3, body }
+}
+
+#[derive(Debug, Clone, PartialEq, Eq)]
+pub struct CueIndex {
+    pub offset: u64,
+    pub number: u8,
+}
+
+#[derive(Debug, Clone, PartialEq, Eq)]
+pub struct CueTrack {
+    pub offset: u64,
+    pub number: u8,
+    pub isrc: [u8; 12],
+    pub non_audio: bool,
+    pub pre_emphasis: bool,
+    pub indices: Vec<CueIndex>,
+}
+
+pub fn cuesheet(catalog: &[u8], lead_in: u64, is_cd: bool, tracks: &[CueTrack]) -> RawBlock {
+    let mut body = vec![0u8; 128];
+    body[..catalog.len().min(128)].copy_from_slice(&catalog[..catalog.len().min(128)]);
+    body.extend_from_slice(&lead_in.to_be_bytes());
+    body.push(if is_cd { 0x80 } else { 0 });
+    body.extend_from_slice(&[0u8; 258]);
+    body.push(tracks.len() as u8);
+    for t in tracks {
+        body.extend_from_slice(&t.offset.to_be_bytes());
+        body.push(t.number);
+        body.extend_from_slice(&t.isrc);
+        body.push((if t.non_audio { 0x80 } else { 0 }) | (if t.pre_emphasis { 0x40 } else { 0 }));
+        body.extend_from_slice(&[0u8; 13]);
+        body.push(t.indices.len() as u8);
+        for i in &t.indices {
+            body.extend_from_slice(&i.offset.to_be_bytes());
+            body.push(i.number);
+            body.extend_from_slice(&[0u8; 3]);
+        }
+    }
+    RawBlock { btype: 5, body }
+}
+
+/// A valid CD-DA style cue sheet block body with `ntracks` tracks.
+pub fn simple_cuesheet(rng: &mut Rng, ntracks: usize, is_cd: bool) -> RawBlock {
+    let mut tracks = vec![];
+    let mut pos = 0u64;
+    for t in 0..ntracks {
+        let nidx = rng.usize(1, 4);
+        let mut indices = vec![];
+        let mut off = 0u64;
+        for i in 0..nidx {
+            indices.push(CueIndex { offset: off, number: (i + 1) as u8 });
+            off += 588 * rng.usize(1, 500) as u64;
+        }
+        tracks.push(CueTrack { offset: pos, number: (t + 1) as u8, isrc: [0; 12], non_audio: false, pre_emphasis: rng.chance(1, 4), indices });
+        pos += off + 588 * rng.usize(1, 3000) as u64;
+    }
+    tracks.push(CueTrack { offset: pos, number: if is_cd { 170 } else { 255 }, isrc: [0; 12], non_audio: false, pre_emphasis: false, indices: vec![] });
+    cuesheet(if is_cd { b"1234567890123" } else { b"" }, if is_cd { 88200 } else { 0 }, is_cd, &tracks)
+}
+
+/// Minimal PNG / JPEG / GIF headers with chosen fields (for the picture sniffers).
+pub fn png_header(width: u32, height: u32, bit_depth: u8, color_type: u8, plte_len: Option<u32>) -> Vec<u8> {
+    let mut v = b"\x89PNG\r\n\x1a\n".to_vec();
+    v.extend_from_slice(&13u32.to_be_bytes());
+    v.extend_from_slice(b"IHDR");
+    v.extend_from_slice(&width.to_be_bytes());
+    v.extend_from_slice(&height.to_be_bytes());
+    v.extend_from_slice(&[bit_depth, color_type, 0, 0, 0]);
+    v.extend_from_slice(&[0, 0, 0, 0]); // crc (not validated)
+    if let Some(n) = plte_len {
+        // an unrelated chunk first, then PLTE
+        v.extend_from_slice(&4u32.to_be_bytes());
+        v.extend_from_slice(b"gAMA");
+        v.extend_from_slice(&[0, 1, 2, 3, 0, 0, 0, 0]);
+        v.extend_from_slice(&n.to_be_bytes());
+        v.extend_from_slice(b"PLTE");
+        v.extend_from_slice(&vec![7u8; (n as usize).min(800)]);
+        v.extend_from_slice(&[0, 0, 0, 0]);
+    }
+    v
+}
+
+pub fn jpeg_header(precision: u8, height: u16, width: u16, components: u8, marker: u8, pre_segments: &[(u8, u16)]) -> Vec<u8> {
+    let mut v = vec![0xFF, 0xD8];
+    for (m, len) in pre_segments {
+        v.extend_from_slice(&[0xFF, *m]);
+        v.extend_from_slice(&len.to_be_bytes());
+        v.extend_from_slice(&vec![0u8; (*len as usize).saturating_sub(2).min(300)]);
+    }
+    v.extend_from_slice(&[0xFF, marker]);
+    v.extend_from_slice(&17u16.to_be_bytes());
+    v.push(precision);
+    v.extend_from_slice(&height.to_be_bytes());
+    v.extend_from_slice(&width.to_be_bytes());
+    v.push(components);
+    v
+}
+
+pub fn gif_header(width: u16, height: u16, flags: u8) -> Vec<u8> {
+    let mut v = b"GIF89a".to_vec();
+    v.extend_from_slice(&width.to_le_bytes());
+    v.extend_from_slice(&height.to_le_bytes());
+    v.push(flags);
+    v.extend_from_slice(&[0, 0]);
+    v
+}
